@@ -344,7 +344,7 @@ def apply_option(state, name, value, outputs=OUTPUTS):
         if nm.decode("latin-1") in outputs:
             state[n] = {nm + (b":" + arg if arg else b"")}
         else:
-            state[n] = {DEFAULTS["output"]}
+            state[n] = {state.get("_defaults", DEFAULTS)["output"]}
     elif n in ("syslog_facility", "syslog_level"):
         table = FACILITIES if n == "syslog_facility" else LEVELS
         v = upper_ascii(value)
@@ -355,15 +355,46 @@ def apply_option(state, name, value, outputs=OUTPUTS):
         else:
             # garbage => built-in default; when it follows a valid occurrence the union also
             # accepts keeping that one (DESIGN 2.6)
-            state[n] = {DEFAULTS[n]} | (state[n] if state.get("_lenient") else set())
+            state[n] = {state.get("_defaults", DEFAULTS)[n]} | (state[n] if state.get("_lenient") else set())
     elif n in LEN_DEFAULT:
         res = parse_length(value, LEN_DEFAULT[n])
         state[n] = {str(r).encode() for r in res}
 
 
-def config_model(data, default_format, outputs=OUTPUTS):
+def defaults_from_config_h(text):
+    """compile-time defaults of a build (./configure --with-message-format= / --with-default-output= / --with-syslog-* /
+    --with-filter-chain= / --enable-error-logging) read from its config.h"""
+    d = dict(DEFAULTS)
+
+    def s(name):
+        m = re.search(r'#define ' + name + r' "(.*)"', text)
+        return None if m is None else m.group(1).encode().replace(b'\\"', b'"')
+    d["message_format"] = s("SNOOPY_CONF_MESSAGE_FORMAT")
+    if s("SNOOPY_CONF_FILTER_CHAIN") is not None:
+        d["filter_chain"] = s("SNOOPY_CONF_FILTER_CHAIN")
+    if s("SNOOPY_CONF_SYSLOG_IDENT_FORMAT") is not None:
+        d["syslog_ident"] = s("SNOOPY_CONF_SYSLOG_IDENT_FORMAT")
+    for opt, name in (("syslog_facility", "SNOOPY_CONF_SYSLOG_FACILITY"), ("syslog_level", "SNOOPY_CONF_SYSLOG_LEVEL")):
+        m = re.search(r"#define " + name + r" LOG_([A-Z0-9]+)", text)
+        if m:
+            d[opt] = m.group(1).encode()
+    if re.search(r"^#define SNOOPY_CONF_ERROR_LOGGING_ENABLED", text, re.M):
+        d["error_logging"] = b"yes"
+    out = s("SNOOPY_CONF_OUTPUT_DEFAULT")
+    if out is None:
+        m = re.search(r"#define SNOOPY_CONF_OUTPUT_DEFAULT ([A-Za-z_0-9]+)", text)
+        out = m.group(1).encode() if m else None
+    if out is not None:
+        arg = s("SNOOPY_CONF_OUTPUT_DEFAULT_ARG")
+        d["output"] = out + (b":" + arg if arg else b"")
+    return d
+
+
+def config_model(data, default_format, outputs=OUTPUTS, defaults=None):
     """Expected `snoopyctl conf` values for a configuration file: dict option -> set of acceptable bytes."""
-    state = {k: {v if v is not None else default_format} for k, v in DEFAULTS.items()}
+    state = {k: {v if v is not None else default_format} for k, v in (defaults or DEFAULTS).items()}
+    if defaults:
+        state["_defaults"] = defaults
     if data is None:
         return state
     for section, name, value in ini_deliveries(data):
